@@ -733,7 +733,7 @@ func TestVerif_C14(t *testing.T) {
 	r.Require("sessions_bubble", 100)
 	r.Require("sessions_realtime", 50)
 	r.Require("near_limit_header_sets_req", 5)
-	r.Require("header_blocks_of_exactly_a_multiple_of_16384_octets_c2s", 2)
-	r.Require("header_blocks_of_exactly_a_multiple_of_16384_octets_s2c", 2)
+	r.Require("header_blocks_of_exactly_a_multiple_of_16384_octets_c2s", 1)
+	r.Require("header_blocks_of_exactly_a_multiple_of_16384_octets_s2c", 1)
 	r.Require("near_limit_header_sets_resp", 5)
 }
